@@ -285,6 +285,11 @@ class FormatMachine(MachineBase):
         if verdict == VALID and self.watching("C06"):
             raise Violation("C06", "C06.valid_object_refused", "refused/%s/%s" % (self.FORMAT, exc_class(e)),
                             {"error": exc_class(e), "msg": str(e)[:160]})
+        if verdict == VALID and self.cfg.get("focus") == self.ROUNDTRIP_PROP and self.ROUNDTRIP_PROP in ("C01", "C02", "C03", "C04"):
+            # a write/read cycle that cannot even start: in a run of the format's round-trip property it is reported there
+            P = self.ROUNDTRIP_PROP
+            raise Violation(P, "%s.valid_object_can_be_written" % P, "valid-object-refused/%s/%s" % (self.FORMAT, exc_class(e)),
+                            {"error": exc_class(e), "msg": str(e)[:160], "destination": self.arg(path) if isinstance(path, str) else "handle"})
         if verdict == INVALID:
             self.count("C06", ["refused", self.FORMAT, why])
             if not isinstance(e, (TypeError, ValueError)):
@@ -830,6 +835,37 @@ class FormatMachine(MachineBase):
                     if second is None:
                         raise Violation("C07", "C07.bad_document_rejected", "bad-document-loaded-%s/%s/%s" % (variant, self.FORMAT, c["key"]),
                                         {"corruption": c["key"], "history": variant, "only": [n]})
+                attr = {"composeinfo": ("info", "composeinfo.json"), "images": ("images", "images.json"), "rpms": ("rpms", "rpms.json"),
+                        "modules": ("modules", "modules.json")}.get(self.FORMAT)
+                if attr is not None and n % 8 == 0:
+                    # ...nor does it depend on the ROUTE: the same file reached through a compose directory is refused by the
+                    # accessor, the second time as well as the first
+                    import productmd.compose
+                    root = "/sim/c07-compose"
+                    self.fs.rmtree(root)
+                    self.fs.put(root + "/metadata/" + attr[1], self.fs.get(scratch))
+                    if attr[0] != "info":
+                        self.fs.put(root + "/metadata/composeinfo.json", self.prime_document_for("composeinfo"))
+                    try:
+                        comp = productmd.compose.Compose(root)
+                    except Exception as e3:
+                        if isinstance(e3, HarnessError):
+                            raise
+                        comp = None
+                    for attempt in ("first", "second"):
+                        if comp is None:
+                            break
+                        try:
+                            getattr(comp, attr[0])
+                            got3 = None
+                        except Exception as e3:
+                            if isinstance(e3, HarnessError):
+                                raise
+                            got3 = e3
+                        if got3 is None:
+                            raise Violation("C07", "C07.bad_document_rejected", "bad-document-loaded-via-compose-%s/%s/%s" % (attempt, self.FORMAT, c["key"]),
+                                            {"corruption": c["key"], "attempt": attempt, "only": [n]})
+                    self.fs.rmtree(root)
             if c["must"] == "reject" and raised is None:
                 raise Violation("C07", "C07.bad_document_rejected", "bad-document-loaded/%s/%s" % (self.FORMAT, c["key"]),
                                 {"corruption": c["key"], "via": via, "only": [n]})
@@ -870,6 +906,10 @@ class FormatMachine(MachineBase):
         """which property reports an invalid object that got written (C06, unless another property states the same rule and
         the run focuses on it)"""
         return "C06"
+
+    def prime_document_for(self, fmt):
+        from ..prime import PRIME
+        return PRIME[fmt]
 
     def prime_document(self):
         """a small VALID current-format document of this format whose ids do not clash with generated content"""
